@@ -5,7 +5,7 @@ Import ListNotations.
 Open Scope string_scope.
 
 
-(* saml2/config.py:Config.load_special (the else block in front of self.setattr, cut out by harness/c06.py:config_slices), lines 256-260 *)
+(* saml2/config.py:Config.load_special (the else block in front of self.setattr, cut out by harness/c06.py:config_slices), lines 257-261 *)
 Definition src2_load_special_value (v__val : pyval) : pyval :=
   (match p2_branch (p2_eq v__val (PStr "true")) with
    | BTrue => (let v__val := (PBool true) in
@@ -46,7 +46,7 @@ Definition src2_option_value (v_attr : pyval) (v_val_config : pyval) (v_val_defa
    | BErr => PErr
    end))).
 
-(* saml2/config.py:Config.setattr, lines 234-238 *)
+(* saml2/config.py:Config.setattr, lines 235-239 *)
 Definition src2_config_setattr (v_self : pyval) (v_context : pyval) (v_attr : pyval) (v_val : pyval) : pyval :=
   (match p2_branch (p2_eq v_context (PStr "")) with
    | BTrue => (py_bindh (fun n_5 => (PList [(PExc n_5); v_self])) v_attr (fun a_1 =>
@@ -61,7 +61,7 @@ Definition src2_config_setattr (v_self : pyval) (v_context : pyval) (v_attr : py
    | BErr => PErr
    end).
 
-(* saml2/config.py:Config.getattr, lines 240-247 *)
+(* saml2/config.py:Config.getattr, lines 241-248 *)
 Definition src2_config_getattr (v_self : pyval) (v_attr : pyval) (v_context : pyval) : pyval :=
   (let k_3 := fun v_context =>
     (match p2_branch (p2_eq v_context (PStr "")) with
@@ -77,6 +77,32 @@ Definition src2_config_getattr (v_self : pyval) (v_attr : pyval) (v_context : py
    | BExc n_3 => (PExc n_3)
    | BErr => PErr
    end)).
+
+(* saml2/response.py:AuthnResponse.get_subject (the if statement between the attesting-entity test and the loop over the confirmations, cut out by harness/c06.py:subject_slice), lines 755-761 *)
+Definition src2_subject_repeat_check (v_self : pyval) (v_subject : pyval) : pyval :=
+  let v__data := PErr in
+  (match p2_branch (p2_and (p2_attr v_self "asynchop") (p2_in (p2_attr v_self "in_response_to") (p2_attr v_self "outstanding_queries"))) with
+   | BTrue => (py_bind (p2_iter_check (p2_attr v_subject "subject_confirmation")) (fun it_2 =>
+   (match pyfor2 (py_iter2 it_2) [v__data] (fun st_3 x_4 => match st_3 with [v__data] =>
+    (let v_subject_confirmation := x_4 in
+    (py_bindS (fun n_9 => (ExcS n_9 [v__data])) (p2_attr v_subject_confirmation "subject_confirmation_data") (fun v__data =>
+    (match p2_branch (p2_and (p2_is_not_none v__data) (p2_ne (p2_attr v__data "in_response_to") (p2_attr v_self "in_response_to"))) with
+    | BTrue => (py_bindS (fun n_7 => (ExcS n_7 [v__data])) (p2_fconcat [PStr "Unsolicited response: "; p2_str (p2_attr v_self "in_response_to")]) (fun _ =>
+    (ExcS "UnsolicitedResponse" [v__data])))
+    | BFalse => (NextS [v__data])
+    | BExc n_8 => (ExcS n_8 [v__data])
+    | BErr => (RetS PErr)
+    end))))
+   | _ => RetS PErr end) with
+   | NextS st_3 => match st_3 with [v__data] => PNone | _ => PErr end
+   | BrkS _ => PErr
+   | RetS r_5 => r_5
+   | ExcS n_6 st_3 => match st_3 with [v__data] => (PExc n_6) | _ => PErr end
+   end)))
+   | BFalse => PNone
+   | BExc n_10 => (PExc n_10)
+   | BErr => PErr
+   end).
 
 (* saml2/client_base.py:Base.__init__, attribute_defaults["allow_unsolicited"] *)
 Definition src2_allow_unsolicited_default : pyval := (PBool false).
